@@ -381,7 +381,13 @@ def writeAll (out : List Ix) : List (Nat × TD α) → List (TD α) → Option (
 whose batch size is already the indexed batch size, Ellipsis-free index.
 Branches: isinteger (one member), is_nd_tensor (`assign`: the value is unbound along
 `unbind_dim` once per level of the index tensor), default (`value.unbind(unbind_dim)` zipped
-strictly with the selected members), has_bool with a rank-1 mask on the stack dim. -/
+strictly with the selected members), has_bool with a rank-1 mask on the stack dim.
+
+`_set_at_str` (_lazy.py: `set_at_(key, tensor, index)`, also the path of `lazy[index] = tensor`)
+repeats the same four branches with the same `unbind_dim = stack_dim - num_single + num_none -
+num_squash` on ONE entry and a tensor value: it is this function with `v` restricted to that key
+(`v.keys = [key]`); the `setitem` correspondence stream drives both code paths (40 % of its cases
+write key by key through `set_at_`) against this one model. -/
 def lazySetCore (L : Lazy α) (ix : List Ix) (v : TD α) : Option (Lazy α) :=
   (idxShape ix L.batch).bind fun ibs =>      -- `_getitem_batch_size(self.batch_size, index)`
   if v.batch ≠ ibs then none else
